@@ -53,6 +53,10 @@ inductive PVal
   | gen
   deriving Repr, Inhabited
 
+def PVal.isNone : PVal → Bool
+  | .none => true
+  | _ => false
+
 def PVal.isMissing : PVal → Bool
   | .missing => true
   | _ => false
@@ -182,7 +186,7 @@ def richcmp (T : ClassTable) (op : CmpOp) (a b : PVal) : Except Err PVal :=
       match op with
       | .eq => .ok (.bool (isId T a b))
       | .ne => .ok (.bool (!isId T a b))
-      | _ => .error .typeErr
+      | _ => .error (if a.isNone || b.isNone then .typeErrNone else .typeErr)
 
 /-- membership by iteration: `any(el is x or el == x for el in xs)` -/
 def listContains (T : ClassTable) (x : PVal) : List PVal → Except Err Bool
@@ -207,7 +211,7 @@ def pyIn (T : ClassTable) (x c : PVal) : Except Err Bool :=
       match T.iter c with
       | some (.ok xs) => listContains T x xs
       | some (.error e) => .error e
-      | none => .error .typeErr
+      | none => .error (if c.isNone then .typeErrNone else .typeErr)
 
 /-- `x not in c`: Python negates the result of `in`. -/
 def pyNotIn (T : ClassTable) (x c : PVal) : Except Err Bool := (pyIn T x c).map (!·)
